@@ -35,6 +35,9 @@ type interpreter struct {
 	fnNames            map[*ssa.Function]string
 	redirects          map[string]value
 	repoInits          []*ssa.Function
+	stdInits           []*ssa.Function         // initialisers of the pure standard packages in stdInitPkgs
+	stdCells           map[*ssa.Global]*value // their globals after initialisation: computed once, shared by all paths (never written afterwards)
+	stdInitFailed      map[string]string
 	modPrefix          string
 	funcsSeen          map[*ssa.Function]bool
 	stubsSeen          map[string]int
@@ -476,6 +479,11 @@ func callSSA(i *interpreter, caller *frame, callpos token.Pos, fn *ssa.Function,
 	fr := &frame{i: i, caller: caller, fn: fn}
 	if caller != nil {
 		fr.pos = caller.pos
+	}
+	if fn.Synthetic == "package initializer" && fn.Pkg != nil && !i.isRepoPkg(fn.Pkg) && !stdInitPkgs[fn.Pkg.Pkg.Path()] {
+		// initialisers of other packages are not executed (runtime, os, sync, reflect, ... need the real
+		// runtime); their error variables are native (see global), other variables stay zero
+		return nil
 	}
 	if fn.Parent() == nil && !i.noExt[fn] {
 		ext, ok := i.extCache[fn]
